@@ -281,6 +281,12 @@ def run(eng, rep) -> None:
     # ---- R05.3 ---------------------------------------------------------------------
     r053(eng, rep, wd, builder)
     r054(eng, rep, wd)
+    # one-shot iterators that are consulted repeatedly (mux selector set, node lists, ...)
+    from ..dataflow import lazy_reuse
+    for f_ in prog.functions.values():
+        if f_.module.name.startswith("fcp_dbc"):
+            for nm_, v_, how_ in lazy_reuse(f_.node):
+                rep.violation("R05.2", f_.file, f_.qual, "%s = %s" % (nm_, norm(v_, 60)), "'%s' is a one-shot iterator (%s) but is %s: after the first use it is exhausted, so later signals are described from an empty set" % (nm_, type(v_).__name__ if not isinstance(v_, ast.Call) else norm(v_.func), how_))
 
 
 def r054(eng, rep, wd: FuncInfo) -> None:
